@@ -34,6 +34,10 @@ func init() {
 					k[15], k[14] = 0, 0
 				}
 				msg := bytes.Repeat([]byte{byte(g), byte(i)}, 20+g%7)
+				if i%4 == 0 {
+					// every UE ciphers a long message (several keystream blocks) at the same time
+					msg = bytes.Repeat([]byte{byte(g), byte(i)}, 1100+g*8)
+				}
 				alg := uint8(1 + (g+i)%2)
 				if err := security.NASEncrypt(alg, k, uint32(i), 1, uint8(g%2), msg); err != nil {
 					return "err"
@@ -112,6 +116,25 @@ func init() {
 					return "err"
 				}
 				return hex.EncodeToString(out)
+			}
+		},
+		// every UE holds the SAME subscription (stgutg.CreateUE gives each UE the configured K and OPc) and the network replays
+		// the same challenge to all of them: every KDF key and input coincides across the UEs, only the SUPI differs
+		"key_derive_shared": func() job {
+			return func(g, i int) string {
+				ue := tglib.NewRanUeContext(fmt.Sprintf("imsi-20893%010d", g), int64(g), 0, 2)
+				if i%2 == 1 {
+					ue.AuthenticationSubs = tglib.GetAuthSubscription(fmt.Sprintf("%032x", 77), "", fmt.Sprintf("%032x", 1234567))
+				} else {
+					ue.AuthenticationSubs = tglib.GetAuthSubscription(fmt.Sprintf("%032x", 77), fmt.Sprintf("%032x", 99), "")
+				}
+				var autn [16]byte
+				for j := range autn {
+					autn[j] = byte(i/8 + j)
+				}
+				rnd := bytes.Repeat([]byte{0x5a, byte(i / 8)}, 8)
+				res := ue.DeriveRESstarAndSetKey(ue.AuthenticationSubs, autn, rnd, "5G:mnc093.mcc208.3gppnetwork.org", "93", "208")
+				return hex.EncodeToString(res) + hex.EncodeToString(ue.Kamf) + hex.EncodeToString(ue.KnasInt[:]) + hex.EncodeToString(ue.KnasEnc[:])
 			}
 		},
 		"key_derive": func() job {
